@@ -399,13 +399,13 @@ def compare_values(t1, t2, envs, mode="refines"):
 
 
 def equation_holds(t, env, exact=False):
-    """holds for an equation tree (eq l r) whose sides are both defined: l = r (exactly when no
-    float constant is involved, else up to rounding relative to the sides' magnitudes)."""
+    """holds for an equation tree (eq l r) whose sides are both defined: l = r exactly (exact=True), or up to rounding
+    relative to the sides' magnitudes (no absolute floor)."""
     a = eval_exact(t[1], env)
     b = eval_exact(t[2], env)
     if exact:
         return a == b
-    return abs(a - b) <= F(1, 10 ** 9) * max(1, abs(a), abs(b))
+    return abs(a - b) <= F(1, 10 ** 9) * max(abs(a), abs(b))
 
 
 # ----------------------------------------------------------------------------- generators
